@@ -640,9 +640,11 @@ theorem valuePosition_comms (amount : Dec) (unit : Option PostUnit) (vp : VP)
       · cases h
       · cases h; simp [unitComms, hcl]
     · rename_i v hcl
-      (repeat' split at h) <;> first | (cases h; done) | (cases h; simp [unitComms, hcl])
+      (repeat' split at h) <;> first | (cases h; done) | (exact absurd h (Outcome.inexact_ne_ok _ _)) |
+        (cases h; simp [unitComms, hcl])
     · rename_i v hcl
-      (repeat' split at h) <;> first | (cases h; done) | (cases h; simp [unitComms, hcl])
+      (repeat' split at h) <;> first | (cases h; done) | (exact absurd h (Outcome.inexact_ne_ok _ _)) |
+        (cases h; simp [unitComms, hcl])
 
 theorem handlePosting_ok (s : Settings) (rp : RawPosting) (p : Posting) (s2 : Settings) :
     handlePosting s rp = .ok (p, s2) ↔
@@ -762,7 +764,7 @@ theorem acceptPostings_ok (s : Settings) (posts : List RawPosting) (last : Optio
           obtain ⟨a, cmt⟩ := ac
           simp only at h
           cases hsm : txnSum (p0 :: rest) with
-          | none => simp [hsm] at h
+          | none => simp only [hsm] at h; exact absurd h (Outcome.inexact_ne_ok _ _)
           | some sm =>
             simp only [hsm] at h
             cases hg : s1.getOrCreateTxnAccount a p0.txnComm with
@@ -997,7 +999,7 @@ theorem acceptTxn_ok (s : Settings) (r : RawTxn) (t : Txn) (s2 : Settings) :
           · cases h
           · rename_i hany
             split at h
-            · cases h
+            · exact absurd h (Outcome.inexact_ne_ok _ _)
             · rename_i sm hsm
               split at h
               · rename_i hz
@@ -1765,6 +1767,11 @@ def OutSimS (o o' : Outcome Settings) : Prop :=
   | .undef, .undef => True
   | _, _ => False
 
+/-- whether an inexact amount is an error (overflow) or outside the modelled domain depends on the amounts
+    only, which are the same in both runs -/
+theorem OutSim.inexact {β : Type} (b : Bool) : OutSim (Outcome.inexact b : Outcome (β × Settings)) (Outcome.inexact b) := by
+  cases b <;> simp [Outcome.inexact, OutSim]
+
 theorem OutSim.map_fst {β : Type} {o o' : Outcome (β × Settings)} (h : OutSim o o') :
     o.map Prod.fst = o'.map Prod.fst := by
   cases o with
@@ -1935,7 +1942,7 @@ theorem acceptPostings_sim (s s' : Settings) (posts : List RawPosting) (last : O
       | some ac =>
         obtain ⟨a, cmt⟩ := ac
         cases esum : txnSum (p0 :: rest) with
-        | none => simp [acceptPostings, e, e', esum, OutSim]
+        | none => simp only [acceptPostings, e, e', esum]; exact OutSim.inexact _
         | some sm =>
           rcases (gocta_sim t t' a p0.txnComm hr1).elim with ⟨g, g'⟩ | ⟨g, g'⟩ | ⟨a', t2, t2', g, g', hr2⟩
           · simp [acceptPostings, e, e', esum, g, g', OutSim]
@@ -2002,7 +2009,9 @@ theorem acceptTxn_sim (s s' : Settings) (r : RawTxn) (hr : LaxRel s s') :
         by_cases hany : (p0 :: tl).any (fun p => p.txnComm != p0.txnComm) = true
         · simp [acceptTxn, e, e', g, g', hany, OutSim]
         · cases esum : txnSum (p0 :: tl) with
-          | none => simp [acceptTxn, e, e', g, g', hany, esum, OutSim]
+          | none =>
+            simp only [acceptTxn, e, e', g, g', hany, esum, Bool.false_eq_true, if_false]
+            exact OutSim.inexact _
           | some sm =>
             by_cases hz : sm.isZero = true
             · simp only [acceptTxn, e, e', g, g', hany, esum, hz, if_true, Bool.false_eq_true, if_false, OutSim, true_and]
